@@ -119,9 +119,12 @@ def schemas(draw, cfg=None):
     ents = [{"name": ent_names[i], "supers": supers[i], "abstract": False, "superexpr": None, "attrs": [], "derived": [],
              "inverse": [], "unique": [], "where": []} for i in range(n_ent)]
     tmp = Schema({"name": sname, "types": [], "entities": ents})
+    redundant_dropped = []
     for e in ents:
-        if len(e["supers"]) > 1 and draw(st.integers(0, 9)) < 7:
+        if len(e["supers"]) > 1 and (draw(st.integers(0, 9)) < 7 or not cfg.get("redundant_supers", True)):
             keep = [s for s in e["supers"] if not any(o != s and tmp.is_a(o, s) for o in e["supers"])]
+            if len(keep) < len(e["supers"]) and not cfg.get("redundant_supers", True):
+                redundant_dropped.append(e["name"])
             e["supers"] = keep
     tmp = Schema({"name": sname, "types": [], "entities": ents})
 
@@ -427,7 +430,7 @@ def schemas(draw, cfg=None):
             e["where"].append({"label": "wr1", "expr": "EXISTS(%s) OR TRUE" % own[0]})
 
     # case noise at declaration sites only (references keep lower case; EXPRESS is case-insensitive)
-    d = {"name": sname, "types": types, "entities": ents, "tags": {"kwish": nm.kwish, "excluded": excluded}}
+    d = {"name": sname, "types": types, "entities": ents, "tags": {"kwish": nm.kwish, "excluded": excluded + ["redundant supertype (an entity listing a supertype that is also an ancestor of another listed supertype): legality references disagree there, see DESIGN.md Appendix C"] * len(redundant_dropped)}}
     return d
 
 
